@@ -689,7 +689,10 @@ Section Dec.
   Definition dec_seq_items (fuel : nat) (d : decoder) (s : S) : outcome (list val * S) :=
     match read_var_i32 rd s with
     | Ok (n, s) =>
-        if (n =? -1)%Z then dec_unknown fuel d s else dec_known fuel d (as_usize n) s
+        if (n =? -1)%Z then dec_unknown fuel d s
+        (* any other negative length is rejected (it is never written; as usize it would be ~2^64) *)
+        else if (n <? 0)%Z then Err EDeserializationFailure
+        else dec_known fuel d (as_usize n) s
     | Err _ => Err EInputEnded
     | Panic p => Panic p
     | Fuel => Fuel
